@@ -44,6 +44,14 @@ class SysCase:
     reqs: list                 # [("calc"|"add", v, token) | ("arm"|"disarm", id)]
     config: dict = field(default_factory=dict)   # trace, memory, priority, drop, blacklist ... (implementation side only)
     roles: list = field(default_factory=list)    # role index of each person in its household (empty = everybody role 0); see ROLES
+    role_variant: int = 0                        # which role table the household entity is built with (ROLE_VARIANTS); role
+                                                 # indices always refer to the entity's FLATTENED roles
+
+
+def derive(c: "SysCase", **changes) -> "SysCase":
+    """a copy of the case with some fields replaced (population, roles and everything else kept)"""
+    import dataclasses
+    return dataclasses.replace(c, **changes)
 
 
 def expr_tokens(e) -> list:
@@ -123,24 +131,37 @@ def _to_int_array(x):
 ROLES = [{"key": "member", "plural": "members"}, {"key": "parent", "plural": "parents", "max": 2},
          {"key": "head", "plural": "heads", "max": 1}]
 UNIQUE_ROLE = 2
+# variant 1: the FIRST role has sub-roles; flattened roles: 0 first_parent, 1 second_parent (each unique), 2 member, 3 head (unique)
+ROLES_SUB = [{"key": "parent", "plural": "parents", "subroles": ["first_parent", "second_parent"]},
+             {"key": "member", "plural": "members"}, {"key": "head", "plural": "heads", "max": 1}]
+ROLE_VARIANTS = [ROLES, ROLES_SUB]
+NO_ROLE = 9          # role digit of the reductions 50-79 meaning "no role filter"
 
 
 def is_role_op(o: int) -> bool:
-    """role operations: 10+r sum(x, role), 20+r value_from_person(x, role), 30+r nb_persons(role), 40+r any(x, role)"""
-    return 10 <= o < 50
+    """role operations: 10+r sum(x, role), 20+r value_from_person(x, role), 30+r nb_persons(role), 40+r any(x, role),
+    50+r max(x, role), 60+r min(x, role), 70+r all(x, role); for 50-79 r = 9 means no role filter; max / min of a
+    household without holder are 0 (instead of -inf / +inf), all is 1"""
+    return 10 <= o < 80
 
 
 def _role_op(o, x, grp):
     """`grp`: the household population, or (person formula) the projector `person.household`, whose
     results are projected back onto the persons"""
-    role = grp.entity.roles[o % 10]
+    role = None if (o >= 50 and o % 10 == NO_ROLE) else grp.entity.flattened_roles[o % 10]
     if o < 20:
         return grp.sum(x, role=role)
     if o < 30:
         return grp.value_from_person(x, role)            # raises unless the role is unique
     if o < 40:
         return grp.nb_persons(role=role)
-    return np.where(grp.any(x, role=role), 1, 0)
+    if o < 50:
+        return np.where(grp.any(x, role=role), 1, 0)
+    if o < 70:
+        # the -inf / +inf of a household without holder never reaches an integer cast
+        red = grp.max(x, role=role) if o < 60 else grp.min(x, role=role)
+        return np.where(grp.nb_persons(role=role) > 0, red, 0)
+    return np.where(grp.all(x, role=role), 1, 0)
 
 
 def _f1(o, x, pop, E):
@@ -271,7 +292,8 @@ def build_system(case: SysCase, ctx: _Ctx | None = None):
     from openfisca_core.periods import DateUnit
     ctx = ctx or _Ctx(case)
     person = entities.Entity("person", "persons", "", "")
-    household = entities.GroupEntity("household", "households", "", "", roles=[dict(r) for r in ROLES])
+    household = entities.GroupEntity("household", "households", "", "",
+                                     roles=[dict(r) for r in ROLE_VARIANTS[getattr(case, "role_variant", 0)]])
     tbs = taxbenefitsystems.TaxBenefitSystem([person, household])
     E5 = Enum("E5", {f"m{i}": f"m{i}" for i in range(ENUM_SIZE)})
     vt = {"int": int, "float": float, "bool": bool, "enum": Enum, "date": dt.date, "str": str}
@@ -346,12 +368,25 @@ def build_simulation(case: SysCase, tbs, E5, configure=None):
     H.ids = [f"h{j}" for j in range(case.nG)]
     H.members_entity_id = np.array(case.mem, dtype=np.int64)
     roles = list(getattr(case, "roles", None) or [0] * case.nP)
-    H.members_role = np.array([H.entity.roles[r] for r in roles], dtype=object)
+    H.members_role = np.array([H.entity.flattened_roles[r] for r in roles], dtype=object)
     sim.max_spiral_loops = case.msl
     if configure:
         configure(sim)
-    for v, tok, vals in case.inputs:
+    rewrite = set((getattr(case, "config", None) or {}).get("rewrite", []))
+    mc = getattr(sim, "memory_config", None)
+    for idx, (v, tok, vals) in enumerate(case.inputs):
         var = case.vars[v]
+        if idx in rewrite:
+            # the input is written twice, the LATEST value counts; under a memory configuration the first
+            # write happens while memory occupation is below the threshold (it stays in memory), the
+            # second one under pressure
+            decoy = [(1 - x) if var.vtype == "bool" else ((x + 1) % ENUM_SIZE if var.vtype == "enum" else x + 1) for x in vals]
+            saved = getattr(mc, "max_memory_occupation_pc", None)
+            if mc is not None:
+                mc.max_memory_occupation_pc = 101
+            sim.set_input(f"v{v}", parse_period_token(tok), _input_array(var, decoy, E5))
+            if mc is not None:
+                mc.max_memory_occupation_pc = saved
         sim.set_input(f"v{v}", parse_period_token(tok), _input_array(var, vals, E5))
     return sim
 
@@ -414,6 +449,21 @@ def known_entries(case: SysCase, sim) -> list:
     return sorted(set(out))
 
 
+BAD_PERIOD_TEXTS = ["2020-13", "2018-02-30", "month:2018-01:x", "fortnight:2018-01", "2018-W54", "month:2018-01:1:1", "", "2018-1"]
+
+
+def request_period(case: SysCase, idx: int, tok: str):
+    """the period argument of the idx-th top-level request: a Period object, or (a third of the requests) the
+    text a user would write -- `Simulation.calculate` accepts both -- or the year as an int"""
+    p = parse_period_token(tok)
+    h = (idx * 7 + len(case.vars) * 3 + case.nP) % 3
+    if h == 0 and tok.startswith(("month/", "year/", "day/", "eternity/")):
+        if tok.startswith("year/") and tok.endswith(",1,1/1") and idx % 2:
+            return int(tok.split("/")[1].split(",")[0])
+        return str(p)
+    return p
+
+
 def run_real(case: SysCase, configure=None, after_request=None):
     """-> (protocol answer, sim, per-request dtype problems)"""
     tbs, ctx, E5 = build_system(case)
@@ -432,9 +482,21 @@ def run_real(case: SysCase, configure=None, after_request=None):
         if r[0] == "reads":
             outs.append("T:?")
             continue
+        if r[0] == "badp":
+            # a period text that cannot be parsed: an error, and the simulation is as before
+            try:
+                txt = BAD_PERIOD_TEXTS[(len(outs) + r[1]) % len(BAD_PERIOD_TEXTS)]
+                res = sim.calculate(f"v{r[1]}", txt) if len(outs) % 2 else sim.calculate_add(f"v{r[1]}", txt)
+                o = "ok:" + canon_array(res)
+            except Exception:
+                o = "ERR"
+            if sim.tracer.stack or sim.invalidated_caches:
+                o += "#STATE"
+            outs.append(o)
+            continue
         kind, v, tok = r
         try:
-            p = parse_period_token(tok)
+            p = request_period(case, len(outs), tok)
             res = sim.calculate(f"v{v}", p) if kind == "calc" else sim.calculate_add(f"v{v}", p)
             o = "ok:" + canon_array(res)
             if v < len(case.vars):
@@ -526,6 +588,30 @@ def population(rng):
     return nP, nG, mem
 
 
+def gen_roles(rng, nP, nG, mem) -> list:
+    """roles respecting their maxima: at most one head (unique role) and two parents per household"""
+    roles = [0] * nP
+    for g in range(nG):
+        ms = [i for i in range(nP) if mem[i] == g]
+        rng.shuffle(ms)
+        if ms and rng.random() < 0.65:
+            roles[ms.pop()] = UNIQUE_ROLE
+        for _ in range(rng.randint(0, 2)):
+            if ms and rng.random() < 0.6:
+                roles[ms.pop()] = 1
+    return roles
+
+
+ROLE_OPS = [10, 11, 12, 20 + UNIQUE_ROLE, 30, 31, 32, 40, 41, 42,
+            50, 51, 52, 50 + NO_ROLE, 60, 61, 62, 60 + NO_ROLE, 70, 71, 72, 70 + NO_ROLE]
+ROLE_OPS_ON = [True]     # spiral systems keep to the plain operations (gen_case switches it)
+
+
+def _role_wrap(o, a):
+    """`any` is defined on boolean arrays: its operand is made 0/1 first"""
+    return ("o1", o, ("o1", 3, a)) if 40 <= o < 50 else ("o1", o, a)
+
+
 def rand_expr(rng, vars_, i, depth, ent, caller_unit, allowed, fault_ids=None, bad_rate=0.0):
     """expression on entity `ent` for variable i; `allowed(j)` says whether variable j may be read"""
     def atom():
@@ -565,7 +651,12 @@ def rand_expr(rng, vars_, i, depth, ent, caller_unit, allowed, fault_ids=None, b
         elif k < 0.85:
             e = ("o1", rng.choice([0, 3, 150 + rng.choice([-2, 2, 3])]), rand_expr(rng, vars_, i, depth - 1, ent, caller_unit, allowed, fault_ids, bad_rate))
         elif ent == 1:
-            e = ("o1", 1, rand_expr(rng, vars_, i, depth - 1, 0, caller_unit, allowed, fault_ids, bad_rate))   # sum over members
+            # sum over members, or a role operation (role-filtered sum, the head's value, count, any)
+            o = 1 if rng.random() < 0.5 or not ROLE_OPS_ON[0] else rng.choice(ROLE_OPS)
+            e = _role_wrap(o, rand_expr(rng, vars_, i, depth - 1, 0, caller_unit, allowed, fault_ids, bad_rate))
+        elif ROLE_OPS_ON[0] and rng.random() < 0.5:
+            # person.household.<role operation>(...): the household's answer projected back onto its members
+            e = ("o1", 2, _role_wrap(rng.choice(ROLE_OPS), rand_expr(rng, vars_, i, depth - 1, 0, caller_unit, allowed, fault_ids, bad_rate)))
         else:
             e = atom()
     if fault_ids is not None and rng.random() < 0.15:
@@ -642,7 +733,9 @@ def gen_vars(rng, n, spiral=False, cycle=False, fault_ids=None, bad_rate=0.0, un
                 if not js:
                     continue
                 j = rng.choice(js)
-                terms.append(("v", j, rng.choice(["last_month", "last_month", "off:-2:month"]), False))
+                # mostly backwards in time (a quasi-circular definition); sometimes forwards, which can close a
+                # TRUE cycle through another period of the same variable (v@03 -> v@02 -> w@02 -> v@03)
+                terms.append(("v", j, rng.choice(["last_month", "last_month", "off:-2:month", "last_month", "off:-2:month", "off:1:month"]), False))
             e = ("c", rng.randint(1, 7))
             for t in terms:
                 e = ("o2", 0, e, ("o1", 150 + rng.choice([1, 1, 1, 2]), t))
@@ -707,7 +800,12 @@ def gen_requests(rng, vars_, k, wrong=0.08, add=0.12):
 def gen_case(rng, kind="ranked", msl=1, nreq=None, fault_ids=None, bad_rate=0.0) -> SysCase:
     nP, nG, mem = population(rng)
     n = rng.randint(3, 9) if kind != "spiral" else rng.randint(2, 5)
-    vars_ = gen_vars(rng, n, spiral=(kind == "spiral"), cycle=(kind == "cycle"), fault_ids=fault_ids, bad_rate=bad_rate)
+    ROLE_OPS_ON[0] = kind != "spiral"
+    try:
+        vars_ = gen_vars(rng, n, spiral=(kind == "spiral"), cycle=(kind == "cycle"), fault_ids=fault_ids, bad_rate=bad_rate)
+    finally:
+        ROLE_OPS_ON[0] = True
     inputs = gen_inputs(rng, vars_, nP, nG, rate=0.12 if kind == "spiral" else 0.25)
     reqs = gen_requests(rng, vars_, nreq or rng.randint(3, 8), wrong=0.0 if kind == "spiral" else 0.08)
-    return SysCase(nP, nG, mem, msl, vars_, inputs, reqs)
+    roles = gen_roles(rng, nP, nG, mem) if kind != "spiral" and rng.random() < 0.8 else []
+    return SysCase(nP, nG, mem, msl, vars_, inputs, reqs, roles=roles)
